@@ -109,6 +109,10 @@ class Buffer:
                 if self.check_buffer_over_data_threshold(b):
                     if self.env.now in self.stored_times:
                         continue
+                    if not self.hot[b].observations['stored']:
+                        # Everything in the HotBuffer is still being
+                        # ingested (or scheduled): nothing can be moved yet
+                        continue
                     if self.cold[b].has_capacity_for(
                         self.hot[b].observations['stored'][
                                     -1].total_data_size
